@@ -103,7 +103,7 @@ func ddSig(want int64) string {
 func modelledFormat(fm string) bool {
 	for i := 0; i < len(fm); i++ {
 		if fm[i] == '%' {
-			if i+1 >= len(fm) || strings.IndexByte("YymcdeHkhIlisSfpTr%", fm[i+1]) < 0 {
+			if i+1 >= len(fm) || strings.IndexByte("YymcdeHkhIlisSfpTr%bMDjaW", fm[i+1]) < 0 {
 				return false
 			}
 			i++
@@ -198,16 +198,13 @@ func gen(r *lib.RNG) caseT {
 	case "parse":
 		// (string, format) pairs for the STR_TO_DATE parser model: formats over the modelled specifiers and literals,
 		// strings = the DATE_FORMAT rendering of a random moment, often damaged by a few edits, or random text
-		specs := []string{"%Y", "%y", "%m", "%c", "%d", "%e", "%H", "%k", "%h", "%I", "%l", "%i", "%s", "%S", "%f", "%p", "%T", "%r", "%%"}
+		specs := []string{"%Y", "%y", "%m", "%c", "%d", "%e", "%H", "%k", "%h", "%I", "%l", "%i", "%s", "%S", "%f", "%p", "%T", "%r", "%%",
+			"%b", "%M", "%D", "%j", "%a", "%W", "%Y", "%d"}
 		lits := []string{" ", "-", "/", ":", ".", "T", "x", " ", "-", ":"}
 		var sb strings.Builder
 		if r.Chance(1, 2) {
 			for _, p := range fmtPieces {
-				c := lib.Pick(r, p)
-				if strings.ContainsAny(c, "bMDj") {
-					c = "%c"
-				}
-				sb.WriteString(c)
+				sb.WriteString(lib.Pick(r, p))
 			}
 		} else {
 			n := r.Range(1, 8)
@@ -459,7 +456,7 @@ func run(c *lib.Ctx, e *eng.E, cs caseT) {
 			x := r.query(fmt.Sprintf("SELECT DATE_FORMAT('%s', '%s')", lit, strings.TrimSuffix(fm, "%")))
 			txt = x.s
 			b := []byte(txt)
-			al := "0123456789 :-/.APMapm%xT"
+			al := "0123456789 :-/.APMapm%xTstndrhJuly"
 			for i := int64(0); i < in[5]; i++ {
 				switch rr.Intn(3) {
 				case 0:
@@ -588,6 +585,40 @@ func run(c *lib.Ctx, e *eng.E, cs caseT) {
 		if !x.isN || x.n != ws {
 			fail("timestampdiff/second-not-difference-of-second-counts", fmt.Sprintf("%s = %d%s, expected %d", q, x.n, x.err, ws))
 		}
+		{ // calendar units: full months between the two moments, truncated toward zero per unit
+			mu := []struct {
+				name string
+				per  int64
+			}{{"MONTH", 1}, {"QUARTER", 3}, {"YEAR", 12}}[in[8]%3]
+			qm := fmt.Sprintf("SELECT TIMESTAMPDIFF(%s, '%s', '%s')", mu.name, a, b)
+			xm := r.query(qm)
+			r.rec(14, qm, append([]int64{mu.per}, in[:8]...), xm, false)
+			// reference: count whole months by stepping (independent of monthsDiff's formula)
+			t1 := goDate(in[0], in[1], in[2]).Add(time.Duration(in[3]) * time.Second)
+			t2 := goDate(in[4], in[5], in[6]).Add(time.Duration(in[7]) * time.Second)
+			sign := int64(1)
+			if t1.After(t2) {
+				t1, t2, sign = t2, t1, -1
+			}
+			months := int64(t2.Year()-t1.Year())*12 + int64(t2.Month()) - int64(t1.Month())
+			d1 := t1.Day()*86400 + t1.Hour()*3600 + t1.Minute()*60 + t1.Second()
+			d2 := t2.Day()*86400 + t2.Hour()*3600 + t2.Minute()*60 + t2.Second()
+			if d2 < d1 {
+				months--
+			}
+			want := sign * months / mu.per
+			if !xm.isN || xm.n != want {
+				sig := "timestampdiff/calendar-unit-wrong"
+				// root cause from the input's shape: equal day of the month and the sign of the time-of-day difference
+				// changes when the minutes are left out
+				full := (in[7] - in[3]) * sign
+				noMin := ((in[7]/3600-in[3]/3600)*3600 + (in[7]%60 - in[3]%60)) * sign
+				if in[2] == in[6] && ((full < 0) != (noMin < 0)) {
+					sig = "timestampdiff/month-tie-break-ignores-minutes"
+				}
+				fail(sig, fmt.Sprintf("%s = %d%s, expected %d", qm, xm.n, xm.err, want))
+			}
+		}
 		u := units[in[8]]
 		q2 := fmt.Sprintf("SELECT TIMESTAMPDIFF(%s, '%s', '%s')", u.name, a, b)
 		x2 := r.query(q2)
@@ -618,6 +649,7 @@ func run(c *lib.Ctx, e *eng.E, cs caseT) {
 		y, m, d := in[0], in[1], in[2]
 		q := fmt.Sprintf("SELECT CAST('%s' AS DATE)", ymd(y, m, d))
 		x := r.query(q)
+		r.rec(13, q, []int64{y, m, d}, x, true)
 		valid := d <= dim(y, m)
 		if valid && !sameDay(x, goDate(y, m, d)) {
 			fail("cast-date/wrong", fmt.Sprintf("%s = %s%s", q, x.s, x.err))
@@ -745,6 +777,11 @@ func main() {
 			{Fam: "addsubday", In: []int64{2024, 1, 15, 5, 0, 1, 0}},
 			{Fam: "addsubday", In: []int64{1970, 1, 1, -1, 1, 0, 0}},
 			{Fam: "addsubday", In: []int64{2024, 2, 29, 25, 3, 1, 0}},
+			{Fam: "tsdiff", In: []int64{2024, 1, 31, 0, 2024, 2, 29, 0, 0}},
+			{Fam: "tsdiff", In: []int64{1950, 4, 29, 44567, 1950, 4, 29, 45495, 0}},
+			{Fam: "tsdiff", In: []int64{2020, 2, 29, 0, 2024, 2, 28, 0, 2}},
+			{Fam: "parse", Fmt: "%W %D %M %Y", In: []int64{2024, 1, 2, 0, 0, 0, 1, 0}},
+			{Fam: "parse", Fmt: "%a %b %e %Y %j", In: []int64{2024, 3, 9, 0, 0, 0, 1, 0}},
 			{Fam: "addmonths", In: []int64{2024, 1, 31, 1}},
 			{Fam: "addmonths", In: []int64{2024, 1, 15, -1}},
 			{Fam: "addyears", In: []int64{2024, 2, 29, 1}},
